@@ -119,6 +119,10 @@ NodePrepareOk(T, f) ==
   IN [T EXCEPT !.known[k] = TRUE, !.gen[k] = g, !.cnt[k] = c,
                !.fl[f].st = "ok", !.fl[f].id = [k |-> k, g |-> g, n |-> IF UniqueIds THEN c ELSE 0]]
 
+\* NodePrepareFail covers every way a PREPARE fails: answered with an ERROR frame, answered with something the
+\* driver cannot parse, never answered (driver timeout), connection lost while outstanding.  In all of them the
+\* flight has failed and FlightDone must remove the entry and wake every waiter; the ways differ only in how the
+\* harness produces them (Gen_Prepare: PrepFail / PrepLost) and in what the monitor sees of the node.
 NodePrepareFailEn(T, f) == NodePrepareOkEn(T, f) /\ T.fails < MaxFail
 NodePrepareFail(T, f) == [T EXCEPT !.fl[f].st = "fail", !.fails = @ + 1]
 
